@@ -27,7 +27,7 @@ var zTypes = []uint16{dns.TypeA, dns.TypeMX, dns.TypeNS, dns.TypeTXT, dns.TypeSO
 
 func genZoneRdata(r *Rng, typ uint16) []string {
 	rel := func() string {
-		return []string{"mail", "ns1.sub", "host.example.net.", "@", "a.b.c"}[r.Intn(5)]
+		return []string{"mail", "ns1.sub", "host.example.net.", "@", "a.b.c", "end\\.", "abs\\\\."}[r.Intn(7)]
 	}
 	switch typ {
 	case dns.TypeA:
@@ -63,7 +63,7 @@ func genZone(r *Rng) []zline {
 		default:
 			l := zline{kind: "rr", ttl: -1, cls: -1, ttlFirst: r.Bool()}
 			if !haveOwner || r.Chance(70) {
-				l.owner = []string{"www", "@", "a.b", "host.example.com.", "mail", "x"}[r.Intn(6)]
+				l.owner = []string{"www", "@", "a.b", "host.example.com.", "mail", "x", "dot\\.", "bs\\\\.", "e\\.f"}[r.Intn(9)]
 				haveOwner = true
 			}
 			if r.Chance(55) {
